@@ -332,11 +332,12 @@ func (r *deserContext) decodeBinary() Item {
 		num := bigint.FromBytes(data)
 		return NewBigInteger(num)
 	case ArrayT, StructT:
-		size := int(r.ReadVarUint())
-		if size > r.limit {
+		usize := r.ReadVarUint()
+		if usize > uint64(r.limit) {
 			r.Err = errTooBigElements
 			return nil
 		}
+		size := int(usize)
 		arr := make([]Item, size)
 		for i := range size {
 			arr[i] = r.decodeBinary()
@@ -347,11 +348,12 @@ func (r *deserContext) decodeBinary() Item {
 		}
 		return NewStruct(arr)
 	case MapT:
-		size := int(r.ReadVarUint())
-		if size > r.limit/2 {
+		usize := r.ReadVarUint()
+		if usize > uint64(r.limit/2) {
 			r.Err = errTooBigElements
 			return nil
 		}
+		size := int(usize)
 		m := NewMap()
 		for range size {
 			key := r.decodeBinary()
